@@ -45,18 +45,32 @@
 (* expected result of every call (pipeline A); "script" runs the call sequence a sampled *)
 (* case names and emits the same; "trace" runs the recorded call sequence of a real      *)
 (* seeded run and compares every recorded result inside TLC (pipeline B).                *)
+(* A case (one element of the batch file): n (n_samples >= 1), K (stream alphabet), KE    *)
+(* (event alphabet, images of projections included), menus F (projections, tables over   *)
+(* 1..KE), P (predicates, 0/1 tables), G (real functions, integers; the real value is    *)
+(* G/GD), xsd (seed id of every external generator), enum/Ls (mc: enumerate all streams  *)
+(* of these lengths) or streams, ops/depth/maxobj/maxchain/lazy (mc: which calls, how    *)
+(* many, how many objects, chain length, whether a call may separate items() from its    *)
+(* iteration), script (the calls, script/trace), obs (the recorded results, trace).      *)
+(* Findings about the real class that the machine makes explicit (all DRIFT-level, none   *)
+(* contradicts a docstring or test of msdm): the cached generator is never restarted, so  *)
+(* items() / expectation() are not idempotent; items() is deferred until iterated; a      *)
+(* derived object re-reads the seeded stream from its beginning whatever the parent has   *)
+(* read (parent and child are functions of the SAME draws, not independent samples);      *)
+(* condition needs up to n tries per sample (n*n reads per items()) and an inner raise     *)
+(* leaves the loop of an outer condition.                                                 *)
 EXTENDS Num, Json, IOUtils
 
-Batch == JsonDeserialize(IOEnv.BATCH_FILE)
+Batch ==JsonDeserialize(IOEnv.BATCH_FILE)
 Mode  == IOEnv.MODE
 QS    == 1024        \* trace mode: recorded floats are round(x * QS) after scaling to integers
 
 VARIABLES cid, streams, objs, exts, pend, run, out, hist, l, phase
 vars == <<cid, streams, objs, exts, pend, run, out, hist, l, phase>>
-\* hist (the calls that led here) is history only
-View == <<cid, streams, objs, exts, pend, run, out, l, phase>>
-
 B == Batch[cid]
+\* hist (the calls that led here) is history only; where a family bounds the number of calls (depth < 99) that
+\* number is part of the view, so that the explored set does not depend on the order in which TLC finds paths
+View == <<cid, streams, objs, exts, pend, run, out, l, phase, IF Mode = "mc" /\ B.depth < 99 THEN Len(hist) ELSE 0>>
 
 \* ------------------------------------------------------------------ frequency tables (insertion ordered)
 EmptyTab == [ev |-> <<>>, c |-> <<>>]
